@@ -164,9 +164,10 @@ def run(ctx, proof):
     from incomplete_cooperative.gameplay import get_exploitabilities_of_action_sequences
     from incomplete_cooperative.run.greedy import get_greedy_rewards
     from incomplete_cooperative.game import IncompleteCooperativeGame
-    for _ in range(2 if ctx.quick else 12):
+    eg_lines, eg_meta = [], []
+    for _ in range(4 if ctx.quick else 24):
         n = 3 if rng.random() < 0.4 else 4
-        gapn = rng.choice(gaps)
+        gapn = rng.choice(gaps + ["l1_norm", "linf_norm"])
         comp = rng.choice(["superadditive", "superadditive_cached"])
         sample_games = [games.sa_closure_game(rng, n, "int", neg_singletons=False) for _ in range(rng.choice([1, 2, 3]))]
         max_steps = rng.randint(1, 3)
@@ -183,6 +184,14 @@ def run(ctx, proof):
             if not np.array_equal(curve, base[1]) or chosen != base[2]:
                 fails.append(("depends on process count", procs))
         curve, chosen = base[1], base[2]
+        # model of the search (exact gaps only: integer games with l1 / l-infinity, so that ties break identically)
+        if gapn in ("l1_norm", "linf_norm"):
+            env0, _ = envlib.make_env(n, comp, gapn, max_steps, games.minimal_ids(n), sample_games)
+            possible = [c.id for c in set(env0.explorable_coalitions)]
+            eg_lines.append("egsearch %s %s %d %d %s %d %s %d %d %s" % (
+                bl.model_name(comp), gapn, n, len(sample_games), " ".join(qtok(x) for v in sample_games for x in v),
+                n + 2, " ".join(map(str, games.minimal_ids(n))), max_steps, len(possible), " ".join(map(str, possible))))
+            eg_meta.append((n, comp, gapn, sample_games, max_steps, curve, chosen))
         means = curve.mean(axis=1)
         if len(set(chosen)) != len(chosen):
             fails.append(("repeats a coalition", chosen))
@@ -212,3 +221,19 @@ def run(ctx, proof):
             ctx.violation(f"expected-greedy search violates its specification: {fails[:3]}",
                           {"n": n, "gap": gapn, "comp": comp, "games": [[str(x) for x in v] for v in sample_games], "max_steps": max_steps})
         ctx.count("expected_greedy", n)
+
+    eg_bad = []
+    for (n, comp, gapn, sg, ms, curve, chosen), out in zip(eg_meta, run_driver_parallel(eg_lines)):
+        if out.startswith("err"):
+            eg_bad.append("model search raised where the implementation returned")
+            continue
+        parts = out.split(";")
+        mseq = [int(x) for x in parts[0].strip().strip("[]").split(",") if x]
+        mrows = [[float(tokq(x)) for x in p.split()] for p in parts[1:]]
+        if mseq != chosen or len(mrows) != curve.shape[0] or any(
+                not close(a, b, 1e-9, max(1.0, abs(b))) for ra, rb in zip(curve.tolist(), mrows) for a, b in zip(ra, rb)):
+            eg_bad.append(f"n={n} {comp} {gapn} max_steps={ms}: impl {chosen} {curve.tolist()} vs model {mseq} {mrows}")
+    ctx.coverage["expected_greedy_runs_compared_with_model"] = len(eg_meta)
+    if eg_bad and not any(v["found_input"] for v in ctx.violations):
+        ctx.violation(f"correspondence 'get_greedy_rewards = eg_search model' broke: {eg_bad[0]} ({len(eg_bad)} disagreements)",
+                      {"disagreements": eg_bad[:4]}, found_input=False)
